@@ -43,8 +43,39 @@ def run_scenarios(exe, scenarios, deadline_s=0, shards_per=None):
     return per, fails
 
 
+def conformance():
+    """bind the vqt model to the installed Qt: engine/procx/qtconf.cpp checks rules R1..R10 on the real QThread/QCoreApplication
+    under both event dispatchers. A rule that does not hold here invalidates the model: engine error (after retries: the
+    mini-programs use short sleeps and may be starved on a loaded machine)."""
+    import subprocess
+    exe = vlib.build_exe("qtconf", [os.path.join(vlib.VERIF, "engine", "procx", "qtconf.cpp")], "plain", [])
+    ok_lines, problems = set(), []
+    for disp in ("glib", "unix"):
+        for g in "abc":
+            for attempt in range(4):
+                env = dict(os.environ, LC_ALL="C.UTF-8")
+                if disp == "unix":
+                    env["QT_NO_GLIB"] = "1"
+                try:
+                    r = subprocess.run([exe, g], capture_output=True, text=True, timeout=120, env=env)
+                    out, rc = r.stdout, r.returncode
+                except subprocess.TimeoutExpired:
+                    out, rc = "", "timeout"
+                if rc == 0:
+                    for l in out.splitlines():
+                        if l.split()[1:2] == ["ok"]:
+                            ok_lines.add((disp, l.split()[0]))
+                    break
+            else:
+                problems.append("%s dispatcher, group %s: %s" % (disp, g, out.replace("\n", " | ")[-300:]))
+    if problems:
+        raise vlib.EngineError("the installed Qt does not follow a rule the vqt model relies on: " + "; ".join(problems))
+    return len(ok_lines)
+
+
 def vs_check(prop, tier, scenarios, rule, assumptions, deadline_s, flavour="plain", extra_violations=None, extra_cov=None, min_outcomes=None):
     t = vlib.Timer()
+    nrules = conformance()
     exe = build(flavour)
     per, fails = run_scenarios(exe, scenarios, deadline_s)
     tot = seqxrun.merge([])
@@ -66,7 +97,8 @@ def vs_check(prop, tier, scenarios, rule, assumptions, deadline_s, flavour="plai
     if not fails and tot["counters"].get("blocked_lock_events", 0) == 0:
         raise vlib.EngineError("vacuous exploration: no thread was ever blocked")
     tot["bound"] = "%d scenarios, deviations <= %s" % (len(scenarios), "/".join(sorted(set(str(s.get("bound", 2)) for s in scenarios))))
-    cov = {"scenarios": table, "deadlocks": tot["counters"].get("deadlocks", 0), "livelocks": tot["counters"].get("livelocks", 0)}
+    cov = {"scenarios": table, "deadlocks": tot["counters"].get("deadlocks", 0), "livelocks": tot["counters"].get("livelocks", 0),
+           "conformance_rules_checked_on_installed_qt": nrules}
     cov.update(extra_cov or {})
     return seqxrun.finish(prop, tier, "model_checking", tot, t, rule, assumptions, fails, extra_cov=cov, extra_violations=extra_violations)
 
@@ -92,7 +124,7 @@ def replay(prop, path):
 
 VS_ASSUMPTIONS = [
     "interleavings are those of a sequentially consistent machine whose atomic steps are the blocks between synchronisation operations (lock/unlock, atomics, post, event-loop dequeue, thread start/quit/wait, sleep) plus yield points inside harness handlers; unsynchronised accesses inside a block are not interleaved",
-    "Qt's thread/event-loop semantics are modelled by rules R1-R11 of DESIGN.md §3.3 (engine/vsched/vqt.cpp), measured on the installed Qt 5.15.8",
+    "Qt's thread/event-loop semantics are modelled by rules R1-R11 of DESIGN.md §3.3 (engine/vsched/vqt.cpp); R1-R10 are re-checked on the installed Qt by engine/procx/qtconf.cpp in every run (both event dispatchers)",
     "timed waits fire only as a counted deviation or when nothing else can run; QThread::terminate ends the thread where it is",
     "stateless search: states = complete executions (distinct schedules), transitions = schedule points",
 ]
